@@ -43,6 +43,7 @@ package primary
 //@   modifies p.$Rin, p.$Rkey, p.$Rval, p.$Rused
 //@   ensures err == nil ==> !old(p.$Rused)[keyof(blk)] && p.$Rused == old(p.$Rused)[keyof(blk) := true]
 //@   ensures err != nil ==> p.$Rused == old(p.$Rused)
+//@   ensures err == nil && len(key) + len(value) < (1 << 31) ==> blk.Size == len(key) + len(value)
 //@   ensures err == nil ==> p.$Rin == old(p.$Rin)[keyof(blk) := true] && p.$Rkey == old(p.$Rkey)[keyof(blk) := bytes(key)] && p.$Rval == old(p.$Rval)[keyof(blk) := bytes(value)]
 //@   ensures err != nil ==> p.$Rin == old(p.$Rin) && p.$Rkey == old(p.$Rkey) && p.$Rval == old(p.$Rval)
 
